@@ -62,6 +62,9 @@ def gen_fail_scenario(rng, kinds=('ValueError', 'Custom', 'Attr', 'KeyError', 'S
         op['n'] = rng.randint(2, 20)
     if op.get('iterable_len') is not None:
         op['iterable_len'] = op['n']
+    if not numpy_in and op.get('input') in ('list', 'gen') and rng.random() < .12:
+        op['elem'] = 'badrepr'          # the error report cannot format this argument
+        sc['pool'].pop('enable_insights', None)   # (insights would call the raising repr() itself, for successful tasks too)
     r = rng.random()
     if numpy_in:
         # array input: tasks are array chunks, identified by the index of their first row
